@@ -91,6 +91,10 @@ CURATED = [
     MAX255,
     # look-alikes of the _xHHHH_ escape for code points the library never escapes: plain data
     "_x0041_", "col_x0041_total",
+    # strings that Unicode normalisation, case folding or whitespace collapsing would change: decomposed accent,
+    # compatibility characters (ANGSTROM SIGN, full-width digits), no-break / ideographic / line-separator spaces,
+    # characters whose upper / lower case is not a single code point, an astral character between BMP ones
+    "cafe\u0301", "\u212b\uff11\uff12", "a\u00a0b", "a\u3000\u2028b", "\u00df\u0130\u01c5", "up\U0001F4C8x",
 ]
 
 
